@@ -185,3 +185,71 @@ class ExitGen:
         main = Func('@is_you', [('a', INT, False)], EMPTY, inner + [ExprStmt(Call('writeln', [FUEL]))])
         prog = Program([Decl('fuel', INT, Lit(INT, 6, keep=True))], [main, f, nxt, d1, dv] + fakes)
         return prog, flavor, ret
+
+
+# ---------------------------------------------------------------- enumerated
+def loop_exit_programs():
+    """every loop kind x body shape (which of continue / break / return / terminal call appear, and whether the body
+    can complete) x what follows the loop x return type x function flavour.  Every iteration first decrements x, the
+    conditions depend on x's parity and sign, so every program terminates for every input.
+    yields (tag, Program, ret)"""
+    mk = ExitGen(0)
+    c1 = lambda: Bin('==', Bin('%', X, Lit(INT, 2, keep=True)), Lit(INT, 0))      # noqa: E731
+    c2 = lambda: Bin('<', X, Lit(INT, 0))                                            # noqa: E731
+    c3 = lambda: Bin('>', X, Lit(INT, 1))                                            # noqa: E731
+
+    def shapes(ret):
+        r = lambda k=0: Ret(None if ret == EMPTY else Bin('+', X, Lit(INT, k)))     # noqa: E731
+        m = mk.mark
+        inner_for = lambda body: For(Decl('j', INT, Lit(INT, 0, keep=True)), Bin('<', Var('j', INT), Lit(INT, 3, keep=True)),    # noqa: E731
+                                     OpAssign(Var('j', INT), '+', Lit(INT, 1, keep=True)), body)
+        return {
+            'continue_then_return': [If(c1(), [m(), Continue()]), r()],
+            'break_then_return': [If(c1(), [m(), Break()]), r()],
+            'continue_break_return': [If(c1(), [Continue()]), If(c2(), [Break()]), m(), r(1)],
+            'return_both_arms': [If(c1(), [r(1)], [r(2)])],
+            'continue_else_return': [If(c1(), [Continue()], [r()])],
+            'inner_break_then_return': [inner_for([If(Bin('==', Var('j', INT), Lit(INT, 1)), [Break()]), m()]), r()],
+            'inner_continue_then_return': [inner_for([If(Bin('==', Var('j', INT), Lit(INT, 1)), [Continue()]), m()]), r()],
+            'only_return': [m(), r()],
+            'plain_body': [If(c1(), [Continue()]), If(c2(), [Break()]), m()],
+            'continue_then_win': [If(c1(), [m(), Continue()]), ExprStmt(Call('all_is_win', []))],
+            'block_continue_return': [Block([If(c1(), [Continue()]), r()])],
+            'inner_returning_loop': [While(c3(), [OpAssign(X, '-', Lit(INT, 1, keep=True)), If(c1(), [Continue()]), r(7)]), m()],
+            'return_in_nested_if': [If(c1(), [If(c3(), [r(3)]), m(), Continue()]), r()],
+            'break_in_else_return': [If(c1(), [r(1)], [Break()])],
+        }
+    dec = lambda: OpAssign(X, '-', Lit(INT, 1, keep=True))      # noqa: E731
+    for ret in (EMPTY, INT):
+        for shape in shapes(ret):
+            for loop in ('while_cond', 'while_true', 'for_counted', 'for_ever', 'while_const_false'):
+                for after in ('none', 'stmts'):
+                    for flavor in ('', '@'):
+                        if flavor == '@' and (after == 'none' or loop in ('for_ever',)):
+                            continue        # thin the product: flavour matters little here
+                        body = [dec()] + shapes(ret)[shape]
+                        if loop == 'while_cond':
+                            lp = While(Bin('>', X, Lit(INT, 0)), body)
+                        elif loop == 'while_true':
+                            lp = While(Lit(BOOL, True), body)
+                        elif loop == 'for_counted':
+                            lp = For(Decl('k', INT, Lit(INT, 0, keep=True)), Bin('<', Var('k', INT), X), OpAssign(Var('k', INT), '+', Lit(INT, 1, keep=True)), body)
+                        elif loop == 'for_ever':
+                            lp = For(None, None, None, body)
+                        else:
+                            lp = While(Lit(BOOL, False), body)
+                        if loop in ('while_true', 'for_ever') and shape in ('continue_then_win',):
+                            pass
+                        fb = [mk.mark(), lp]
+                        if after == 'stmts':
+                            fb += [mk.mark(), Ret(None if ret == EMPTY else Bin('+', X, Lit(INT, 100)))]
+                        f = Func(flavor + 'ft', [('x', INT, False)], ret, fb)
+                        nxt = Func(flavor + 'fnext', [('x', INT, False)], ret,
+                                   [ExprStmt(Call('write', [Lit(STRING, b'<NEXT>')]))] + ([Ret(Lit(INT, -1))] if ret != EMPTY else []))
+                        call = Call(f, [Var('a', INT)])
+                        use = ExprStmt(Call('write', [call])) if ret != EMPTY else ExprStmt(call)
+                        main = Func('@is_you', [('a', INT, False)], EMPTY,
+                                    [ExprStmt(Call('write', [Lit(BYTE, ord('['))])), use, ExprStmt(Call('write', [Lit(BYTE, ord(']'))])),
+                                     ExprStmt(Call('writeln', [FUEL]))])
+                        yield (f'loopexit/{ret}/{shape}/{loop}/{after}/{flavor or "plain"}',
+                               Program([Decl('fuel', INT, Lit(INT, 6, keep=True))], [main, f, nxt]), ret)
